@@ -12,5 +12,4 @@ func cdxFlow(c *Ctx)                      {}
 func cdxTreeAssembly(c *Ctx, prop string) {}
 
 func unionRules(c *Ctx)    {}
-func aliasRules(c *Ctx)    {}
 func diffHelpers(c *Ctx)   {}
